@@ -1,5 +1,6 @@
 /- Driver/Form — C14 model driver: field value decoding and numeric acceptance -/
 import SuplaVerif.Model.Form
+import SuplaVerif.Model.Cred
 import Driver.Common
 namespace Driver.FormDrv
 open SuplaVerif Driver
@@ -20,6 +21,12 @@ def step (_ : Unit) (toks : List String) : Unit × List String :=
     match old.toInt?, Bytes.ofHex rest with
     | some o, some r => ((), [s!"NUM {applyQos o (fieldValue 12 r)}"])
     | _, _ => ((), ["BADOP"])
+  | ["keeppwd", l, e, op, om, nm] =>
+    match l.toNat?, e.toNat?, Bytes.ofHex op, Bytes.ofHex om, Bytes.ofHex nm with
+    | some L, some E, some oldPwd, some oldMail, some newMail =>
+      let r := keepLongPassword L E oldPwd oldMail newMail
+      ((), [s!"KEEP {hx r.1} {hx r.2}"])
+    | _, _, _, _, _ => ((), ["BADOP"])
   | ["margin", rest] =>
     match Bytes.ofHex rest with
     | some r => ((), [s!"NUM {applyMargin (fieldValue 12 r)}"])
